@@ -221,6 +221,11 @@ def check_C13(ctx):
                     cut["cut"], len(dump), cut["class"]),
                     dict(src_hex=c["src_hex"], dump_hex=r["dump"], cut=cut["cut"], sizes=c["sizes"]),
                     impl=cut, theorem="C13_truncated", key="prefix-" + cut["class"])
+            elif "opts_class" in cut:
+                ctx.violation("LoadProg with OptDisasm/OptStats/OptTrace on a %d-byte prefix of a %d-byte dump: %s %s (without the "
+                              "options: error %s)" % (cut["cut"], len(dump), cut["opts_class"], cut.get("opts_label", ""), cut["label"]),
+                              dict(src_hex=c["src_hex"], dump_hex=r["dump"], cut=cut["cut"], sizes=c["sizes"], options="disasm,stats,trace"),
+                              impl=cut, theorem="C13_truncated", key="prefix-opts-" + cut["opts_class"])
         # model on a sample of cut points (all of them for small dumps)
         cuts = r["cuts"] if len(dump) <= 400 or ctx.thorough else rng.sample(r["cuts"], min(len(r["cuts"]), 60))
         for cut in cuts:
